@@ -4,7 +4,7 @@ Fam <- Fam3
 MaxSc = 4
 Mutant = 0
 Quirk = 1
-MaxEvents = 7
+MaxEvents = 6
 Lists <- ListsA
 HealthVals = {FALSE}
 INIT Init
